@@ -12,7 +12,12 @@ SPEC = dict(
          "shard, multi-shard repositories); every step runs the real execute() as preview then with -f (sync with varying root "
          "sets incl. overlapping/duplicate/missing roots, or remove with name/source selectors); non-trivial = the preview "
          "announces at least one removal or indexing, or fails. 60 % of the histories start from an index brought up to date by a "
-         "set-up run; class labels decision=... record which IndexState branch each previewed decision came from.",
+         "set-up run; class labels decision=... record which IndexState branch each previewed decision came from. "
+         "22 % of the world mutations build a layout around the duplicate-name rule from an existing repository: the bare x.git / "
+         "working-tree x twins under ONE root (flat or nested a/x.git + a/x), the same relative path (or its twin) under another "
+         "root, one directory reachable through overlapping roots, and accepted near-misses (x.git.git, a working tree called "
+         "x.git, x.git without objects, x2); the next sync mostly uses a root set containing them; class labels collision=... "
+         "(name|source : same-root|cross-root, near-miss-only, bad-root) are measured by the independent walk.",
     trusted_base=["correspondence harness harness/overlay/cmd/zoekt-local-sync/zz_verif_c33_test.go (generator, output parser, snapshots, Go oracle)",
                   "shard file naming (index.shardName: QueryEscape, injective below 200 bytes) abstracted to the key (name, number)",
                   "IndexState's comparisons other than the name abstracted to one fingerprint (options hash, HEAD commit, zoekt.web-url)",
